@@ -20,7 +20,7 @@ CONF = {
                           ('loops-sub', ('H_E', 'M_E0', 'NoGates', 'O_LS', 7, 4), 16000)],
                    thorough=[('struct', ('H_E', 'M_E0', 'T_E', 'O_E', 5, 4), 120000), ('struct-macro', ('H_E', 'M_E1', 'T_E1', 'O_E', 4, 3), 60000),
                              ('brackets', ('H_E', 'M_E0', 'T_PM', 'O_PM', 6, 4), 150000),
-                             ('loops-only', ('H_E', 'M_E0', 'T_PM', 'O_L02', 8, 4), 100000),
+                             ('loops-only', ('H_E', 'M_E0', 'T_PM', 'O_L02', 7, 4), 100000),
                              ('struct-deep', ('H_E', 'M_E1', 'T_E1', 'O_E', 9, 5), 60000, (20000, 50)),
                              ('struct-macro-ovr', ('H_E', 'M_E2', 'T_E1', 'O_E0', 3, 4), 40000),
                              ('struct-one-ovr', ('H_E1', 'M_E1', 'T_E1', 'O_E0', 4, 4), 30000),
